@@ -58,8 +58,9 @@ PROPS['C13'] = {
                    'effective setting = keyword if given else attribute (C13_precedence_*), a value given through .config has the same effect as the keyword '
                    '(C13_channels), keyword beats a conflicting config, the handed-down tract config carries the effective tract settings, colon-mode and depth '
                    'interplay characterised; unknown names raise ValueError for every line; token-level round trip for every setting value in the documented domain '
-                   '(finite sweep on the regenerated patterns/tables, ints -100..1000); the full text round trip is proved under the stated string-splitting seam '
-                   '(C13_roundtrip_partial) which is validated by differential execution. Tied to the code by regenerated tables/patterns, differential execution '
+                   '(finite sweep on the regenerated patterns/tables, ints -100..1000) and the FULL text round trip decompile_to_text -> Config(text) for every configuration in '
+                   'that domain (C13_roundtrip: the string level is closed by the characterisation of re.split on a character class and of re.sub(\\s*) on blank-free text, '
+                   'Engine/RegexChr.v, for texts of any length). Tied to the code by regenerated tables/patterns, differential execution '
                    '(effective settings observed by wrapping PLSSParser/TractParser) and an independent oracle on the real code.',
 }
 
